@@ -223,6 +223,19 @@ def check_case(case):
                     err = np.abs(H - Ht) / (np.abs(Ht) + 1e-300)
                     if H.shape != Ht.shape or not np.all(np.isfinite(H)) or err.max() > 1e-9:
                         bad("hessian-mismatch", "raw_hessian", f"got {H.tolist()}, d2f/deta2 = {Ht.tolist()}")
+            if nm in ("Logistic", "LogisticGroup") and np.abs(eta).max() > 0:
+                # bounded function of the predictor: finite (and equal to sigma(z) sigma(-z), which underflows to 0)
+                # however saturated the predictor is -- iterates of an unbounded (separable) problem get there
+                for big in (800., 5000.):
+                    eb = eta * (big / np.abs(eta).max())
+                    Hb = call("raw_hessian", lambda: np.asarray(df.raw_hessian(y, eb), float))
+                    if Hb is None:
+                        break
+                    Hr = loss.hess(y, eb)
+                    if not np.all(np.isfinite(Hb)) or np.max(np.abs(Hb - Hr) - 1e-9 * np.abs(Hr)) > 1e-300:
+                        bad("hessian-mismatch", "raw_hessian", f"saturated predictor (max |eta| = {big:g}): got {Hb.tolist()[:4]}, d2f/deta2 = {Hr.tolist()[:4]}")
+                        break
+                classes.append("saturated-predictor")
     # non-trivial: two non-orthogonal columns
     Gm = Xd.T @ Xd
     off = Gm - np.diag(np.diag(Gm))
